@@ -12,10 +12,11 @@ EXTENDS ClientURL, Json, IOUtils
 
 VARIABLES l, st, skipping, fails, cs
 
-UInit(e) == [base |-> e.base, rs |-> e.rs, host |-> e.host, steps |-> e.steps]
+UInit(e) == [base |-> e.base, rs |-> e.rs, host |-> e.host, dq |-> e.dq, steps |-> e.steps]
 
 \* the input of the k-th operation: the property is per request, whatever was built before on the Runtime
 In(s, k) == [base |-> s.base, pat |-> s.steps[k].pat, vals |-> s.steps[k].vals, cq |-> s.steps[k].cq,
+             opauth |-> s.steps[k].opauth, aq |-> s.steps[k].aq, dq |-> s.dq,
              rs |-> s.rs, os |-> s.steps[k].os, host |-> s.host]
 
 UAllowed(s, e) ==
